@@ -8,7 +8,6 @@ from ..evalr import Obj  # noqa: F811
 
 LEVEL = "other"
 
-_cache = {}
 
 
 def make_config(ctx, sampling_method="dynamic", stratified=None, smoothing=False, ratio=None, nb_samples=None, bootstrap_method="bca"):
@@ -32,7 +31,9 @@ GROUP_CONFIGS = [(m, s, False) for m in ("replacement", "single_pass", "dynamic"
 
 def sample_outcomes(ctx, chk, flags=("pos", "pos"), classes=(SCORES, GROUP)):
     """All paths of bootstrap_sample for both classes over the built-in configuration matrix."""
-    key = (id(ctx), flags, classes, ctx.ev.merge_ifs, tuple(a.key for a in ctx.ev.assume))
+    from .thr import cache_of
+    _cache = cache_of(ctx)
+    key = ("samples", flags, classes, ctx.ev.merge_ifs, tuple(a.key for a in ctx.ev.assume))
     if key in _cache:
         return _cache[key]
     out = []
